@@ -20,6 +20,7 @@ import (
 	sdkdb "github.com/cosmos/cosmos-db"
 	"github.com/cosmos/cosmos-sdk/baseapp"
 	"github.com/cosmos/cosmos-sdk/client"
+	"github.com/cosmos/cosmos-sdk/codec"
 	clienttx "github.com/cosmos/cosmos-sdk/client/tx"
 	simtestutil "github.com/cosmos/cosmos-sdk/testutil/sims"
 	sdk "github.com/cosmos/cosmos-sdk/types"
@@ -42,7 +43,11 @@ import (
 // (InitChain), then makes the genesis state the committed state WITHOUT running a block, so that what is read
 // afterwards is exactly what InitGenesis wrote.  A panic or error of InitChain is returned.
 func newAppFrom(c *Chain, appState []byte, cp *tmproto.ConsensusParams, height int64, tm time.Time) (app *chainapp.Evermint, failure interface{}) {
-	chainID := c.S.ChainConstantsConfig.GetCosmosChainID()
+	return newAppWith(c, appState, cp, height, tm, c.S.ChainConstantsConfig.GetCosmosChainID())
+}
+
+// newAppWith: the same with a chosen chain id (InitChain of a node started with another chain id in its genesis file).
+func newAppWith(c *Chain, appState []byte, cp *tmproto.ConsensusParams, height int64, tm time.Time, chainID string) (app *chainapp.Evermint, failure interface{}) {
 	app = chainapp.NewEvermint(log.NewNopLogger(), sdkdb.NewMemDB(), nil, true, map[int64]bool{}, chainapp.DefaultNodeHome, 0,
 		c.S.EncodingConfig, simtestutil.NewAppOptionsWithFlagHome(chainapp.DefaultNodeHome), baseapp.SetChainID(chainID))
 	p := CatchPanic(func() {
@@ -147,6 +152,59 @@ type cState struct {
 	// side tables
 	codes  map[uint64][]byte
 	denoms map[uint64]string
+	// for the Go oracle only: every leaf of the three params values, the EIP-155 chain id x/evm stores, the base fee as
+	// x/evm reads it, block hashes kept by x/evm (not part of any genesis), entries under prefixes nobody knows
+	leaves   map[string]map[string]string
+	ChainID  uint64
+	EvmBase  *big.Int
+	BlockHs  int
+	Unknown  []string
+}
+
+// leavesOf flattens the JSON form of a params value (every field, defaults emitted) into path -> value.
+func leavesOf(cdc codec.JSONCodec, m proto.Message) map[string]string {
+	bz, err := cdc.MarshalJSON(m)
+	if err != nil {
+		panic(err)
+	}
+	var v interface{}
+	if err := json.Unmarshal(bz, &v); err != nil {
+		panic(err)
+	}
+	out := map[string]string{}
+	var walk func(path string, v interface{})
+	walk = func(path string, v interface{}) {
+		switch x := v.(type) {
+		case map[string]interface{}:
+			for k, e := range x {
+				walk(path+"."+k, e)
+			}
+		default:
+			b, _ := json.Marshal(x) // lists stay whole: order and multiplicity matter
+			out[path] = string(b)
+		}
+	}
+	walk("", v)
+	return out
+}
+
+// diffLeaves lists the fields in which two params values differ.
+func diffLeaves(a, b map[string]string) []string {
+	var out []string
+	for k, va := range a {
+		if vb, ok := b[k]; !ok {
+			out = append(out, fmt.Sprintf("%s: %s -> (absent)", k, va))
+		} else if va != vb {
+			out = append(out, fmt.Sprintf("%s: %s -> %s", k, va, vb))
+		}
+	}
+	for k, vb := range b {
+		if _, ok := a[k]; !ok {
+			out = append(out, fmt.Sprintf("%s: (absent) -> %s", k, vb))
+		}
+	}
+	sort.Strings(out)
+	return out
 }
 
 func bz(b []byte) *big.Int { return new(big.Int).SetBytes(b) }
@@ -169,9 +227,31 @@ func mustMarshal(m proto.Message) []byte {
 
 func readState(t *testing.T, app *chainapp.Evermint, ctx sdk.Context) *cState {
 	keys := app.GetKVStoreKey()
-	s := &cState{codes: map[uint64][]byte{}, denoms: map[uint64]string{}}
+	s := &cState{codes: map[uint64][]byte{}, denoms: map[uint64]string{}, leaves: map[string]map[string]string{}}
+	cdc := app.AppCodec()
 	ep := app.EvmKeeper.GetParams(ctx)
 	s.EvmParams = id64(mustMarshal(&ep))
+	s.leaves["evm"] = leavesOf(cdc, &ep)
+	s.ChainID = app.EvmKeeper.GetEip155ChainId(ctx).BigInt().Uint64()
+	s.EvmBase = app.EvmKeeper.GetBaseFee(ctx).BigInt()
+	// every entry of the four stores belongs to a prefix this driver reads (anything else is reported)
+	known := map[string]map[byte]bool{"evm": {1: true, 2: true, 3: true, 4: true, 5: true, 6: true}, "feemarket": {}, "cpc": {1: true, 2: true, 3: true, 4: true}, "vauth": {1: true}}
+	for _, m := range []string{"evm", "feemarket", "cpc", "vauth"} {
+		it := ctx.KVStore(keys[m]).Iterator(nil, nil)
+		for ; it.Valid(); it.Next() {
+			k := it.Key()
+			if m == "feemarket" && string(k) == "Params" {
+				continue
+			}
+			if m == "evm" && len(k) > 0 && k[0] == 5 {
+				s.BlockHs++
+			}
+			if len(k) == 0 || !known[m][k[0]] {
+				s.Unknown = append(s.Unknown, fmt.Sprintf("%s/%x", m, k))
+			}
+		}
+		it.Close()
+	}
 	iter(ctx, keys["evm"], 4, func(k, v []byte) { s.CodeHash = append(s.CodeHash, zz{bz(k), bz(v)}) })
 	iter(ctx, keys["evm"], 1, func(k, v []byte) {
 		id := codeID(v)
@@ -185,8 +265,10 @@ func readState(t *testing.T, app *chainapp.Evermint, ctx sdk.Context) *cState {
 	fp := app.FeeMarketKeeper.GetParams(ctx)
 	s.BaseFee = fp.BaseFee.BigInt()
 	s.MinGasPrice = fp.MinGasPrice.BigInt()
+	s.leaves["feemarket"] = leavesOf(cdc, &fp)
 	cp := app.CPCKeeper.GetParams(ctx)
 	s.CpcParams = id64(mustMarshal(&cp))
+	s.leaves["cpc"] = leavesOf(cdc, &cp)
 	iter(ctx, keys["cpc"], 2, func(k, v []byte) {
 		var m cpctypes.CustomPrecompiledContractMeta
 		require.NoError(t, proto.Unmarshal(v, &m))
@@ -243,6 +325,7 @@ type genV struct {
 	codes       map[uint64][]byte
 	canon       map[string]string // canonical JSON of the four module sections
 	invalid     map[string]string // module -> error of the module's own GenesisState.Validate()
+	leaves      map[string]map[string]string
 }
 
 func canonJSON(raw json.RawMessage) string {
@@ -258,13 +341,14 @@ func projectGen(t *testing.T, c *Chain, appState []byte) *genV {
 	var gs map[string]json.RawMessage
 	require.NoError(t, json.Unmarshal(appState, &gs))
 	cdc := c.S.EncodingConfig.Codec
-	g := &genV{codes: map[uint64][]byte{}, canon: map[string]string{}, invalid: map[string]string{}}
+	g := &genV{codes: map[uint64][]byte{}, canon: map[string]string{}, invalid: map[string]string{}, leaves: map[string]map[string]string{}}
 	for _, m := range []string{"evm", "feemarket", "cpc", "vauth"} {
 		g.canon[m] = canonJSON(gs[m])
 	}
 	var eg evmGenesis
 	require.NoError(t, cdc.UnmarshalJSON(gs["evm"], &eg))
 	g.EvmParams = id64(mustMarshal(&eg.Params))
+	g.leaves["evm"] = leavesOf(cdc, &eg.Params)
 	if err := eg.Validate(); err != nil {
 		g.invalid["evm"] = err.Error()
 	}
@@ -285,9 +369,11 @@ func projectGen(t *testing.T, c *Chain, appState []byte) *genV {
 	}
 	g.BaseFee = fg.Params.BaseFee.BigInt()
 	g.MinGasPrice = fg.Params.MinGasPrice.BigInt()
+	g.leaves["feemarket"] = leavesOf(cdc, &fg.Params)
 	var cg cpctypes.GenesisState
 	require.NoError(t, cdc.UnmarshalJSON(gs["cpc"], &cg))
 	g.CpcParams = id64(mustMarshal(&cg.Params))
+	g.leaves["cpc"] = leavesOf(cdc, &cg.Params)
 	if err := cg.Validate(); err != nil {
 		g.invalid["cpc"] = err.Error()
 	}
